@@ -7,6 +7,41 @@ COMMON_ASSUMPTIONS = [
 ]
 
 PROPS = {
+    "C03": {
+        "kinds": [("H03", 500, 6000)],
+        "rule": "one operation history on AffTree<2> (random constructor incl. partial trees; 1-6 steps weighted towards compose::<true>, infeasible_elimination and tree arithmetic); 12 fixed inputs evaluated after every step, 8 of them on decision hyperplanes; non-trivial = a pruning step with a result of at least 3 nodes or at least 3 steps; distinct by case text",
+        "assumptions": COMMON_ASSUMPTIONS + ["LP answers and mirror_points results are oracles of the model; the replay feeds it the answers logged by the hooks (H1 LP log, H2 state trace); every logged Infeasible answer is checked exactly to be sound by a margin of 1e-6", "pruning is binary-only in the crate (K = 2)"],
+    },
+    "C04": {
+        "kinds": [("H04", 500, 6000)],
+        "rule": "one operation history (1-10 steps over apply_func, compose<prune on/off>(schema or tree), infeasible_elimination, reduce, + - * /, neg, affine operands) from every constructor; shape checked after each step; non-trivial = at least 3 steps; distinct by case text",
+        "assumptions": COMMON_ASSUMPTIONS + ["LP answers and mirror_points results are oracles of the model; the replay feeds it the answers logged by the hooks (H1 LP log, H2 state trace); every logged Infeasible answer is checked exactly to be sound by a margin of 1e-6", "pruning is binary-only in the crate (K = 2)"],
+    },
+    "C05": {
+        "kinds": [("H05", 500, 6000)],
+        "rule": "one operation history (1-8 steps, elimination/composition heavy); after every step each stored witness is checked exactly against its path polytope (1e-8 slack) and each node marked infeasible against an exact LP with margin 1e-6; non-trivial = at least 3 steps or a pruning step; distinct by case text",
+        "assumptions": COMMON_ASSUMPTIONS + ["LP answers and mirror_points results are oracles of the model; the replay feeds it the answers logged by the hooks (H1 LP log, H2 state trace); every logged Infeasible answer is checked exactly to be sound by a margin of 1e-6", "pruning is binary-only in the crate (K = 2)"],
+    },
+    "C06": {
+        "kinds": [("H06", 500, 6000)],
+        "rule": "one compose/eliminate pipeline on total binary trees (schemas and affine maps, fresh and cached states); after each elimination: exact emptiness certificates for every remaining node, single-child check, second run compared and its LP calls counted; non-trivial = at least 3 steps or a pruning step; distinct by case text",
+        "assumptions": COMMON_ASSUMPTIONS + ["LP answers and mirror_points results are oracles of the model; the replay feeds it the answers logged by the hooks (H1 LP log, H2 state trace); every logged Infeasible answer is checked exactly to be sound by a margin of 1e-6", "pruning is binary-only in the crate (K = 2)"],
+    },
+    "C07": {
+        "kinds": [("H07", 500, 6000)],
+        "rule": "one history weighted towards + - * / between trees (all four ownership variants), tree-affine forms on either side, neg; values compared with the coefficient-wise operator on the terminals reached; non-trivial = at least 3 steps or a pruning step; distinct by case text",
+        "assumptions": COMMON_ASSUMPTIONS + ["LP answers and mirror_points results are oracles of the model; the replay feeds it the answers logged by the hooks (H1 LP log, H2 state trace); every logged Infeasible answer is checked exactly to be sound by a margin of 1e-6", "pruning is binary-only in the crate (K = 2)"],
+    },
+    "C08": {
+        "kinds": [("H08", 500, 6000)],
+        "rule": "one history weighted towards reduce after compositions; values before/after, node count, idempotence, no remaining equal-terminal siblings; non-trivial = at least 3 steps or a pruning step; distinct by case text",
+        "assumptions": COMMON_ASSUMPTIONS + ["LP answers and mirror_points results are oracles of the model; the replay feeds it the answers logged by the hooks (H1 LP log, H2 state trace); every logged Infeasible answer is checked exactly to be sound by a margin of 1e-6", "pruning is binary-only in the crate (K = 2)"],
+    },
+    "C11": {
+        "kinds": [("H11", 500, 6000)],
+        "rule": "one history with a random fault plan per step (Error, Unbounded, perturbed witness, far-off witness at up to 4 of the first 14 LP calls); no panic, values, shape, caches, node count against the fault-free run; non-trivial = at least 3 steps or a pruning step; distinct by case text",
+        "assumptions": COMMON_ASSUMPTIONS + ["LP answers and mirror_points results are oracles of the model; the replay feeds it the answers logged by the hooks (H1 LP log, H2 state trace); every logged Infeasible answer is checked exactly to be sound by a margin of 1e-6", "pruning is binary-only in the crate (K = 2)"],
+    },
     "C17": {
         "kinds": [("C17", 1500, 30000)],
         "rule": "one predefined tree per case (six activations, argmax, class characterisation, inf_norm, from_poly with/without else-branch, from_slice+compose+remove_axes), dims 1-5, random parameters incl. invalid ones; 8-13 inputs per case on and around every breakpoint / with ties; non-trivial = generator returns a tree; distinct by case text",
